@@ -191,6 +191,13 @@ fn unit_specs_inner(prop: &str, mode: &str, seed: u64, unit: u64, world_arg: Opt
         "sizesf" => vec![sizesf_enum_spec(rs, unit)],
         "c12" => vec![c12_enum_spec(rs, unit)],
         "c11" => vec![c11_enum_spec(rs, unit)],
+        m if m.starts_with("long") => {
+            // long:<n> = histories of about n operations (default 3000)
+            let n: u32 = m.split(':').nth(1).and_then(|x| x.parse().ok()).unwrap_or(3000);
+            let wn = world_for(prop, rs, world_arg);
+            let sh = shape_any(wn);
+            vec![crate::gen::gen_long_spec(prop, rs, &sh, cfg, n / 2 + (rs % (n as u64).max(1)) as u32)]
+        }
         _ => {
             let wn = world_for(prop, rs, world_arg);
             let sh = shape_any(wn);
